@@ -922,10 +922,27 @@ def lemma_L7(prog, res, classes=("ELF64",)):
                     if p["status"] != "ok":
                         res.add(f"C08.no_panic({name})", "violated", f"{p['status']} decisions={p['decisions'][:30]}")
                         continue
+                    st_ = p["env"]["tables"]
+                    ranges = []
+                    if st_["sh"] is not None:
+                        for i_ in range(z3.simplify(num_sections(cls, st_)).as_long()):
+                            t_ = shdr_terms(cls, st_, i_)
+                            ranges.append((t_["sh_offset"], t_["sh_size"]))
+                    if st_["ph"] is not None:
+                        ci_ = 0 if cls == "ELF32" else 1
+                        pes_ = model.CLASS_SIZES["ProgramHeader"][ci_]
+                        for i_ in range(z3.simplify(z3.UDiv(st_["ph"].len, bv(pes_))).as_long()):
+                            b_ = st_["ph"].file_pos() + bv(i_ * pes_)
+                            ranges.append((model.field_term("ProgramHeader", 1, ci_, b_, 64), model.field_term("ProgramHeader", 4, ci_, b_, 64)))
                     for ev in p["events"]:
                         if ev[0] == "alloc":
                             okv, mdl = valid(res, fsol, p["pc"], z3.ULE(ev[1], p["env"]["stream_len"]))
                             res.add(f"C08.alloc<=stream_len({name})", "holds" if okv else "violated", model_str(mdl), mdl)
+                        if ev[0] == "read_exact" and ranges:
+                            # laziness: every read is exactly the data range designated by one header of the (bounded) tables
+                            okv, mdl = valid(res, fsol, p["pc"], z3.Or([z3.And(ev[2] == o_, ev[3] == n_) for (o_, n_) in ranges]))
+                            res.add(f"C08.reads_only_designated_ranges({name})", "holds" if okv else "violated",
+                                    "" if okv else f"read_exact(pos={z3.simplify(ev[2])}, len={z3.simplify(ev[3])}) is not the data range of any header: {model_str(mdl, 12)}"[:700], mdl)
                     v = p["value"]
                     ioerrs = io_err_events(p["events"])
                     if ioerrs:
